@@ -225,6 +225,155 @@ func exprText(fset *token.FileSet, e ast.Expr) string {
 	return strings.ReplaceAll(t, "\"", "'")
 }
 
+// ---- mutex inventory: every X.Lock() / X.RLock() statement and how the lock is given back
+type lockEntry struct {
+	file, fn, recv, kind, status string
+	ord, line                    int
+}
+
+// lockCall: stmt is `X.<name>()`; returns the text of X
+func lockCall(fset *token.FileSet, st ast.Stmt, names ...string) (string, string, bool) {
+	var call *ast.CallExpr
+	switch x := st.(type) {
+	case *ast.ExprStmt:
+		call, _ = x.X.(*ast.CallExpr)
+	case *ast.DeferStmt:
+		call = x.Call
+	}
+	if call == nil || len(call.Args) != 0 {
+		return "", "", false
+	}
+	sel, ok := call.Fun.(*ast.SelectorExpr)
+	if !ok {
+		return "", "", false
+	}
+	for _, n := range names {
+		if sel.Sel.Name == n {
+			return exprText(fset, sel.X), n, true
+		}
+	}
+	return "", "", false
+}
+
+// between a Lock and its Unlock (same statement list): every way out must give the lock back first.
+// returns false when some return (or a break/continue/goto at this level) leaves with the lock held.
+func pathsUnlock(fset *token.FileSet, stmts []ast.Stmt, recv, unlock string) bool {
+	ok := true
+	var walkList func(list []ast.Stmt, depth int)
+	var walk func(n ast.Node, depth int)
+	walkList = func(list []ast.Stmt, depth int) {
+		for i, st := range list {
+			switch x := st.(type) {
+			case *ast.ReturnStmt:
+				prev := false
+				if i > 0 {
+					if _, isDefer := list[i-1].(*ast.DeferStmt); !isDefer {
+						if r, _, is := lockCall(fset, list[i-1], unlock); is && r == recv {
+							prev = true
+						}
+					}
+				}
+				if !prev {
+					ok = false
+				}
+			case *ast.BranchStmt:
+				if x.Tok == token.GOTO || x.Label != nil || depth == 0 {
+					ok = false
+				}
+			default:
+				walk(st, depth)
+			}
+		}
+	}
+	walk = func(n ast.Node, depth int) {
+		switch x := n.(type) {
+		case nil:
+		case *ast.FuncLit:
+		case *ast.BlockStmt:
+			walkList(x.List, depth)
+		case *ast.IfStmt:
+			walk(x.Body, depth)
+			if x.Else != nil {
+				walk(x.Else, depth)
+			}
+		case *ast.ForStmt:
+			walk(x.Body, depth+1)
+		case *ast.RangeStmt:
+			walk(x.Body, depth+1)
+		case *ast.SwitchStmt:
+			walk(x.Body, depth+1)
+		case *ast.TypeSwitchStmt:
+			walk(x.Body, depth+1)
+		case *ast.SelectStmt:
+			walk(x.Body, depth+1)
+		case *ast.CaseClause:
+			walkList(x.Body, depth)
+		case *ast.CommClause:
+			walkList(x.Body, depth)
+		case *ast.LabeledStmt:
+			walk(x.Stmt, depth)
+		}
+	}
+	walkList(stmts, 0)
+	return ok
+}
+
+func lockInventory(fset *token.FileSet, rel string, fd *ast.FuncDecl, out *[]lockEntry) {
+	ord := 0
+	var visit func(list []ast.Stmt)
+	visit = func(list []ast.Stmt) {
+		for i, st := range list {
+			if _, isDefer := st.(*ast.DeferStmt); !isDefer {
+				if recv, kind, is := lockCall(fset, st, "Lock", "RLock"); is {
+					unlock := "Unlock"
+					if kind == "RLock" {
+						unlock = "RUnlock"
+					}
+					e := lockEntry{file: rel, fn: recvName(fd), recv: recv, kind: kind, ord: ord, line: fset.Position(st.Pos()).Line, status: "MUnmatched"}
+					ord++
+					for j := i + 1; j < len(list); j++ {
+						r, _, isU := lockCall(fset, list[j], unlock)
+						if !isU || r != recv {
+							continue
+						}
+						if _, isDefer := list[j].(*ast.DeferStmt); isDefer {
+							if j == i+1 {
+								e.status = "MDeferred"
+							} else if pathsUnlock(fset, list[i+1:j], recv, unlock) {
+								e.status = "MDeferred"
+							} else {
+								e.status = "MLeaky"
+							}
+						} else if pathsUnlock(fset, list[i+1:j], recv, unlock) {
+							e.status = "MPaired"
+						} else {
+							e.status = "MLeaky"
+						}
+						break
+					}
+					*out = append(*out, e)
+				}
+			}
+			// nested statement lists (and closures: they are functions of their own as far as locking goes)
+			ast.Inspect(st, func(n ast.Node) bool {
+				switch x := n.(type) {
+				case *ast.BlockStmt:
+					visit(x.List)
+					return false
+				case *ast.CaseClause:
+					visit(x.Body)
+					return false
+				case *ast.CommClause:
+					visit(x.Body)
+					return false
+				}
+				return true
+			})
+		}
+	}
+	visit(fd.Body.List)
+}
+
 func recvName(fd *ast.FuncDecl) string {
 	if fd.Recv == nil || len(fd.Recv.List) == 0 {
 		return fd.Name.Name
@@ -358,6 +507,15 @@ func main() {
 			})
 		}
 	}
+	var locks []lockEntry
+	for _, p := range files {
+		rel, _ := filepath.Rel(root, p)
+		for _, dc := range parsed[p].Decls {
+			if fd, ok := dc.(*ast.FuncDecl); ok && fd.Body != nil {
+				lockInventory(fset, rel, fd, &locks)
+			}
+		}
+	}
 	var b strings.Builder
 	b.WriteString("(* GENERATED by translate/gen_goroutines_reader from " + "$VERIF_REPO/reader" + " -- do not edit, never committed *)\n")
 	b.WriteString("From Coq Require Import List String ZArith.\nFrom Qryn Require Import model.ReaderGoroutines.\nImport ListNotations.\nOpen Scope string_scope.\n\n")
@@ -387,6 +545,17 @@ func main() {
 		}
 		fmt.Fprintf(&b, "  {| l_file := %q; l_func := %q; l_ord := %d; l_kind := %q; l_x := %q; l_early := %s |}%s (* line %d *)\n",
 			l.file, l.fn, l.ord, l.kind, l.x, early, sep, l.line)
+	}
+	b.WriteString("].\n")
+	b.WriteString("\n(* every sync.Mutex / RWMutex Lock()/RLock() statement under reader/ and how the lock is given back *)\n")
+	b.WriteString("Definition reader_locks : list mlock := [\n")
+	for i, l := range locks {
+		sep := ";"
+		if i == len(locks)-1 {
+			sep = ""
+		}
+		fmt.Fprintf(&b, "  {| m_file := %q; m_func := %q; m_ord := %d; m_recv := %q; m_kind := %q; m_status := %s |}%s (* line %d *)\n",
+			l.file, l.fn, l.ord, l.recv, l.kind, l.status, sep, l.line)
 	}
 	b.WriteString("].\n")
 	if err := os.WriteFile(out, []byte(b.String()), 0644); err != nil {
